@@ -64,6 +64,7 @@ def gen(rng, n, tier):
                ["calls", [(o[0] + ":" + rng.choice(["int8", "int16", "int32"]) if o[0] == "fill" and isinstance(o[2], int) and o[2] != 1 and rng.random() < 0.4
                            else o[0]) for o in ops]],
                ["emptied", ["T"] + pre if emptied else ["F"]],
+               ["premerged", "T" if (nd == 1 and not emptied and rng.random() < 0.25) else "F"],
                ["batch", "F" if prefilled else "T"]]
 
 def _state(h):
@@ -86,6 +87,17 @@ def impl(case):
         hd2 = dict(hd); hd2["freq"] = em[1]; hd2["err2"] = em[2]
         h = C.mk_hist(hd2).copy(include_frequencies=False)
         h.keep_missed = init["keep_missed"] == "T"
+    elif d.get("premerged", "F") == "T" and len(hd["bins"]) == 1:
+        # the same histogram reached by a history: twice as many bins, some look-ups (caches), then merge_bins(2, inplace=True) on all axes
+        b0 = hd["bins"][0]
+        fine = []
+        for lo_, hi_ in b0: fine += [[lo_, (lo_ + hi_) / 2], [(lo_ + hi_) / 2, hi_]]
+        hd2 = dict(hd); hd2["bins"] = [fine]; hd2["kinds"] = ["static"]
+        hd2["freq"] = [x for c_ in hd["freq"] for x in (c_, 0)]; hd2["err2"] = [x for c_ in hd["err2"] for x in (c_, 0)]
+        h = C.mk_hist(hd2)
+        for lo_, hi_ in fine[:3]: h.find_bin(float((lo_ + hi_) / 2))
+        h.find_bin(float(fine[-1][1]) + 1.0)
+        h.merge_bins(2, inplace=True)
     else:
         h = C.mk_hist(hd)
     nd = h.ndim
